@@ -4,7 +4,7 @@ EXTENDS Subject, Json
 
 \* What the CURRENT code does (descriptive configurations refer to these; flip one when the code is repaired).
 DescSweepAborts == FALSE       \* F8 (repaired in /repo b9b69e4)
-DescKeepsDidRows == TRUE       \* F8b
+DescKeepsDidRows == FALSE      \* F8b (repaired in /repo COMMIT_F8b)
 DescBuildOnPending == TRUE     \* F8c
 DescUpdatesDeactivated == TRUE \* F8d
 
